@@ -159,9 +159,13 @@ class moduint(object):
     def __abs__(self):
         return abs(self.arg)
     def __rpow__(self, v):
-        return v**self.arg
+        return self.__class__(v**self.arg)
     def __pow__(self, v):
-        return self.__class__(self.arg**v)
+        if isinstance(v, moduint):
+            cls = self.maxcast(v)
+            return cls(self.arg**v.arg)
+        else:
+            return self.__class__(self.arg**v)
 
 class modint(moduint):
     def __init__(self, arg):
